@@ -701,3 +701,252 @@ Proof.
   destruct (Z.min (sl_x0 s) (sl_x0 o) <? Z.max (sl_x1 s) (sl_x1 o)) eqn:C; [reflexivity|].
   destruct (sl_x0 s <? sl_x1 s) eqn:D; [lia | discriminate].
 Qed.
+
+(* ---- joins and thick segments moved by d --------------------------------------------------------- *)
+Definition tr_oline (d : point) (o : option line) : option line := option_map (fun l => translate_line l d) o.
+
+Lemma line_midpoint_translate l d : line_midpoint (translate_line l d) = padd (line_midpoint l) d.
+Proof.
+  unfold line_midpoint. rewrite line_delta_translate. unfold translate_line; cbn [l_start]. apply padd_swap.
+Qed.
+
+Lemma filler_line_tr d j : filler_line (tr_join d j) = tr_oline d (filler_line j).
+Proof.
+  unfold filler_line, tr_join; cbn [lj_kind first_edge_end second_edge_start].
+  destruct (lj_kind j) as [|o|o| | |]; try reflexivity; destruct o; reflexivity.
+Qed.
+
+Lemma lj_cap_tr d j c :
+  lj_cap (tr_join d j) (tr_corners d c) =
+  (translate_line (fst (lj_cap j c)) d, tr_oline d (snd (lj_cap j c))).
+Proof.
+  unfold lj_cap. rewrite filler_line_tr. destruct (filler_line j) as [fl|]; cbn [tr_oline option_map fst snd].
+  - rewrite line_midpoint_translate. reflexivity.
+  - reflexivity.
+Qed.
+
+Lemma is_skeleton_tr d t : is_skeleton (tr_segment d t) = is_skeleton t.
+Proof. unfold is_skeleton, tr_segment, tr_join, tr_corners; cbn. apply point_eqb_padd. Qed.
+
+Lemma ts_edges_tr d t :
+  ts_edges (tr_segment d t) = (translate_line (fst (ts_edges t)) d, translate_line (snd (ts_edges t)) d).
+Proof. reflexivity. Qed.
+
+Lemma bi_opt_rel d s s' o : sl_rel d s s' -> sl_rel d (bi_opt s o) (bi_opt s' (tr_oline d o)).
+Proof. intros R. destruct o as [l|]; cbn; [apply bresenham_intersection_rel|]; exact R. Qed.
+
+(* ThickSegment::intersection commutes with translation *)
+Lemma ts_intersection_rel d t y :
+  sl_rel d (ts_intersection t y) (ts_intersection (tr_segment d t) (y + py d)).
+Proof.
+  unfold ts_intersection. rewrite is_skeleton_tr, ts_edges_tr.
+  pose proof (sl_rel_new_empty d y) as R0.
+  destruct (is_skeleton t).
+  - cbn [fst]. apply bresenham_intersection_rel. exact R0.
+  - unfold start_cap_lines, end_cap_lines.
+    change (ts_start_join (tr_segment d t)) with (tr_join d (ts_start_join t)).
+    change (ts_end_join (tr_segment d t)) with (tr_join d (ts_end_join t)).
+    change (second_edge_start (tr_join d (ts_start_join t))) with (tr_corners d (second_edge_start (ts_start_join t))).
+    change (first_edge_end (tr_join d (ts_end_join t))) with (tr_corners d (first_edge_end (ts_end_join t))).
+    rewrite !lj_cap_tr.
+    destruct (lj_cap (ts_start_join t) (second_edge_start (ts_start_join t))) as [a1 a2].
+    destruct (lj_cap (ts_end_join t) (first_edge_end (ts_end_join t))) as [b1 b2].
+    destruct (ts_edges t) as [e1 e2]. cbn [fst snd].
+    repeat (first [apply bresenham_intersection_rel | apply bi_opt_rel]). exact R0.
+Qed.
+
+(* the merge loop of polyline::ScanlineIntersections *)
+Lemma si_merge_rel d : forall segs acc acc', sl_rel d acc acc' ->
+  Forall2 (sl_rel d) (si_merge acc segs) (si_merge acc' (map (tr_segment d) segs)).
+Proof.
+  induction segs as [|seg rest IH]; intros acc acc' R.
+  - cbn [si_merge map]. rewrite (sl_rel_empty _ _ _ R). destruct (sl_is_empty acc); constructor; [exact R | constructor].
+  - cbn [si_merge map].
+    assert (Y : sl_y acc' = sl_y acc + py d) by (destruct R; assumption). rewrite Y.
+    pose proof (ts_intersection_rel d seg (sl_y acc)) as RN.
+    destruct (sl_try_extend_rel _ _ _ _ _ R RN) as [F S].
+    destruct (sl_try_extend acc (ts_intersection seg (sl_y acc))) as [ext a1].
+    destruct (sl_try_extend acc' (ts_intersection (tr_segment d seg) (sl_y acc + py d))) as [ext' a1'].
+    cbn [fst snd] in F, S. subst ext'. destruct ext.
+    + apply IH. exact S.
+    + constructor; [exact R | apply IH; exact RN].
+Qed.
+
+Definition tr_sl (d : point) (s : scanline) : scanline := SL (sl_y s + py d) (sl_x0 s + px d) (sl_x1 s + px d).
+
+(* after the empty scanlines are dropped (polyline::ScanlineIterator) the relation is plain translation *)
+Lemma filter_nonempty_rel d : forall l l', Forall2 (sl_rel d) l l' ->
+  filter (fun s => negb (sl_is_empty s)) l' = map (tr_sl d) (filter (fun s => negb (sl_is_empty s)) l).
+Proof.
+  induction 1 as [|s s' l l' R _ IH]; [reflexivity|].
+  cbn [filter]. rewrite (sl_rel_empty _ _ _ R). destruct (sl_is_empty s) eqn:E; cbn [negb]; [exact IH|].
+  cbn [map]. rewrite IH. f_equal.
+  destruct R as [Y [[E1 _]|[_ [A0 A1]]]]; [congruence|].
+  destruct s' as [y' a' b']; cbn [sl_y sl_x0 sl_x1] in *. unfold tr_sl. congruence.
+Qed.
+
+Lemma range_from_shift k : forall n a, range_from (a + k) n = map (fun x => x + k) (range_from a n).
+Proof.
+  induction n as [|n IH]; intros a; [reflexivity|]. cbn [range_from map]. f_equal.
+  replace (a + k + 1) with (a + 1 + k) by ring. apply IH.
+Qed.
+
+Lemma range_shift a b k : range (a + k) (b + k) = map (fun x => x + k) (range a b).
+Proof. unfold range. replace (b + k - (a + k)) with (b - a) by ring. apply range_from_shift. Qed.
+
+Lemma sl_points_tr d s : sl_points (tr_sl d s) = map (fun p => padd p d) (sl_points s).
+Proof.
+  unfold sl_points, tr_sl; cbn [sl_y sl_x0 sl_x1]. rewrite range_shift, !map_map. reflexivity.
+Qed.
+
+Lemma sl_to_rectangle_tr d s : sl_to_rectangle (tr_sl d s) = translate_rect (sl_to_rectangle s) d.
+Proof.
+  unfold sl_to_rectangle, translate_rect, tr_sl, sl_is_empty, padd; cbn [sl_y sl_x0 sl_x1 tl sz px py].
+  f_equal. f_equal.
+  destruct (sl_x0 s <? sl_x1 s) eqn:A; destruct (sl_x0 s + px d <? sl_x1 s + px d) eqn:B; cbn [negb]; lia.
+Qed.
+
+(* ---- the segment lists of a polyline -------------------------------------------------------------- *)
+Definition tr_pt (d : point) (p : point) : point := padd p d.
+Definition tr_win (d : point) (t : point * point * point) : point * point * point :=
+  (padd (fst (fst t)) d, padd (snd (fst t)) d, padd (snd t) d).
+
+(* no saturating cast is reached in the join of a window of three vertices, before and after the move *)
+Definition win_nosat (w : Z) (so : stroke_offset) (d : point) (t : point * point * point) : bool :=
+  join_nosat (fst (fst t)) (snd (fst t)) (snd t) w so &&
+  join_nosat (padd (fst (fst t)) d) (padd (snd (fst t)) d) (padd (snd t) d) w so.
+
+Definition poly_nosat (pts : list point) (w : Z) (d : point) : bool :=
+  forallb (win_nosat w SONone d) (windows3 pts).
+
+(* conversion must not evaluate these (they contain the whole parallels walk) when it compares folded and unfolded
+   forms of the list functions below: unfold them last *)
+Strategy 100 [win_nosat join_nosat].
+
+Lemma windows3_map d : forall pts, windows3 (map (tr_pt d) pts) = map (tr_win d) (windows3 pts).
+Proof.
+  induction pts as [|a t IH]; [reflexivity|].
+  destruct t as [|b [|c r]]; try reflexivity.
+  change (windows3 (map (tr_pt d) (a :: b :: c :: r)))
+    with ((tr_pt d a, tr_pt d b, tr_pt d c) :: windows3 (map (tr_pt d) (b :: c :: r))).
+  rewrite IH. reflexivity.
+Qed.
+
+Lemma win_join_translate w so d t : win_nosat w so d t = true ->
+  lj_from_points (padd (fst (fst t)) d) (padd (snd (fst t)) d) (padd (snd t) d) w so =
+  option_map (tr_join d) (lj_from_points (fst (fst t)) (snd (fst t)) (snd t) w so).
+Proof.
+  unfold win_nosat. intros H. apply andb_true_iff in H as [H1 H2]. apply lj_from_points_translate; assumption.
+Qed.
+
+Lemma option_map_cons_map {A B} (f : A -> B) x (o : option (list A)) :
+  option_map (cons (f x)) (option_map (map f) o) = option_map (map f) (option_map (cons x) o).
+Proof. destruct o; reflexivity. Qed.
+
+Lemma forallb_cons {A} (f : A -> bool) x l : forallb f (x :: l) = f x && forallb f l.
+Proof. reflexivity. Qed.
+
+Lemma windows3_3 a b c r : windows3 (a :: b :: c :: r) = (a, b, c) :: windows3 (b :: c :: r).
+Proof. reflexivity. Qed.
+
+Lemma si_segments_3 sj a b c r w :
+  si_segments sj (a :: b :: c :: r) w =
+  match lj_from_points a b c w SONone with
+  | Some ej => option_map (cons (TS sj ej)) (si_segments ej (b :: c :: r) w)
+  | None => None
+  end.
+Proof. reflexivity. Qed.
+
+(* polyline::ScanlineIntersections::next_segment, all segments *)
+Lemma si_segments_tr w d : forall pts sj, poly_nosat pts w d = true ->
+  si_segments (tr_join d sj) (map (tr_pt d) pts) w = option_map (map (tr_segment d)) (si_segments sj pts w).
+Proof.
+  induction pts as [|a t IH]; intros sj H; [reflexivity|].
+  destruct t as [|b [|c r]].
+  - reflexivity.
+  - cbn [map si_segments]. unfold tr_pt. rewrite lj_end_translate.
+    destruct (lj_end a b w SONone); reflexivity.
+  - unfold poly_nosat in H. rewrite windows3_3, forallb_cons in H.
+    apply andb_true_iff in H as [H1 H2].
+    cbn [map]. rewrite !si_segments_3. unfold tr_pt at 1 2 3.
+    pose proof (win_join_translate w SONone d (a, b, c) H1) as W. cbn [fst snd] in W. rewrite W.
+    destruct (lj_from_points a b c w SONone) as [ej|]; [|reflexivity]. cbn [option_map].
+    change (tr_pt d b :: tr_pt d c :: map (tr_pt d) r) with (map (tr_pt d) (b :: c :: r)).
+    rewrite (IH ej H2).
+    change (TS (tr_join d sj) (tr_join d ej)) with (tr_segment d (TS sj ej)).
+    apply option_map_cons_map.
+Qed.
+
+Lemma poly_segments_tr w d pts : poly_nosat pts w d = true ->
+  poly_segments (map (tr_pt d) pts) w = option_map (map (tr_segment d)) (poly_segments pts w).
+Proof.
+  intros H. destruct pts as [|a [|b r]]; try reflexivity.
+  unfold poly_segments. cbn [map]. unfold tr_pt at 1 2. rewrite lj_start_translate.
+  destruct (lj_start a b w SONone) as [sj|]; [|reflexivity]. cbn [option_map].
+  exact (si_segments_tr w d (a :: b :: r) sj H).
+Qed.
+
+(* common::ThickSegmentIter *)
+Lemma tsi_run_tr w d : forall fuel ws sj ej l2, forallb (win_nosat w SONone d) ws = true ->
+  tsi_run (map (tr_win d) ws) (tr_join d sj) (tr_join d ej) (padd (fst l2) d, padd (snd l2) d) w fuel =
+  option_map (map (tr_segment d)) (tsi_run ws sj ej l2 w fuel).
+Proof.
+  induction fuel as [|f IH]; intros ws sj ej l2 H; [reflexivity|].
+  cbn [tsi_run]. destruct ws as [|[[a b] c] ws'].
+  - cbn [map]. rewrite tr_join_kind.
+    destruct (lj_kind ej); try reflexivity; cbn [fst snd]; rewrite lj_end_translate;
+      destruct (lj_end (fst l2) (snd l2) w SONone) as [ej'|]; try reflexivity; cbn [option_map];
+      pose proof (IH [] ej ej' l2 eq_refl) as I; cbn [map] in I; rewrite I;
+      change (TS (tr_join d sj) (tr_join d ej)) with (tr_segment d (TS sj ej)); apply option_map_cons_map.
+  - rewrite forallb_cons in H. apply andb_true_iff in H as [H1 H2].
+    cbn [map tr_win fst snd]. pose proof (win_join_translate w SONone d (a, b, c) H1) as W. cbn [fst snd] in W. rewrite W.
+    destruct (lj_from_points a b c w SONone) as [ej'|]; [|reflexivity]. cbn [option_map].
+    rewrite (IH ws' ej ej' l2 H2).
+    change (TS (tr_join d sj) (tr_join d ej)) with (tr_segment d (TS sj ej)). apply option_map_cons_map.
+Qed.
+
+Lemma removelast_map {A B} (f : A -> B) l : removelast (map f l) = map f (removelast l).
+Proof.
+  induction l as [|x [|y t] IH]; try reflexivity.
+  change (removelast (map f (x :: y :: t))) with (f x :: removelast (map f (y :: t))). rewrite IH. reflexivity.
+Qed.
+
+Lemma forallb_tl {A} (f : A -> bool) l : forallb f l = true -> forallb f (List.tl l) = true.
+Proof. destruct l; [reflexivity|]. rewrite forallb_cons. cbn [List.tl]. intros H. apply andb_true_iff in H. tauto. Qed.
+
+Lemma map_tl' {A B} (f : A -> B) l : List.tl (map f l) = map f (List.tl l).
+Proof. destruct l; reflexivity. Qed.
+
+Lemma thick_segment_iter_3 a b c r w :
+  thick_segment_iter (a :: b :: c :: r) w =
+  match lj_start a b w SONone, lj_from_points a b c w SONone,
+        last_opt (a :: b :: c :: r), last_opt (removelast (a :: b :: c :: r)) with
+  | Some sj, Some ej, Some z, Some y =>
+      tsi_run (List.tl (windows3 (a :: b :: c :: r))) sj ej (y, z) w (Datatypes.S (length (a :: b :: c :: r)))
+  | _, _, _, _ => None
+  end.
+Proof. reflexivity. Qed.
+
+Lemma thick_segment_iter_tr w d pts : poly_nosat pts w d = true ->
+  thick_segment_iter (map (tr_pt d) pts) w = option_map (map (tr_segment d)) (thick_segment_iter pts w).
+Proof.
+  intros H. destruct pts as [|a [|b [|c r]]]; try reflexivity.
+  - unfold thick_segment_iter. cbn [map]. unfold tr_pt. rewrite lj_start_translate, lj_end_translate.
+    destruct (lj_start a b w SONone) as [sj|]; [|reflexivity].
+    destruct (lj_end a b w SONone) as [ej|]; [|reflexivity]. cbn [option_map].
+    exact (tsi_run_tr w d 2 [] sj ej (a, b) eq_refl).
+  - pose proof H as H0. unfold poly_nosat in H0. rewrite windows3_3, forallb_cons in H0.
+    apply andb_true_iff in H0 as [H1 _].
+    pose proof (win_join_translate w SONone d (a, b, c) H1) as W. cbn [fst snd] in W.
+    cbn [map]. rewrite !thick_segment_iter_3.
+    change (tr_pt d a :: tr_pt d b :: tr_pt d c :: map (tr_pt d) r) with (map (tr_pt d) (a :: b :: c :: r)).
+    set (pts := a :: b :: c :: r) in *.
+    unfold tr_pt at 1 2 3 4 5. rewrite lj_start_translate, W.
+    rewrite removelast_map, !last_opt_map, windows3_map, map_length.
+    destruct (lj_start a b w SONone) as [sj|]; [|reflexivity].
+    destruct (lj_from_points a b c w SONone) as [ej|]; [|reflexivity].
+    destruct (last_opt pts) as [z|]; [|reflexivity].
+    destruct (last_opt (removelast pts)) as [y|]; [|reflexivity]. cbn [option_map].
+    rewrite map_tl'.
+    exact (tsi_run_tr w d _ _ sj ej (y, z) (forallb_tl _ _ H)).
+Qed.
